@@ -14,6 +14,9 @@
 (*   "err"    the reader must return an error (no frame),                             *)
 (*   "either" the draft leaves it open / is ambiguous (gray): no accept/reject        *)
 (*            verdict; panics, allocation and the boundary rule still apply.          *)
+(*   "refused" (mode rt only) the writer must return an error and leave no trace:     *)
+(*            no octet on the wire, compression context untouched -- all later frames *)
+(*            of the sequence keep their own verdict.                                 *)
 (*   Boundary rule: whenever the reader returns a frame (no error) it has consumed    *)
 (*   exactly 8 + declared length octets, i.e. the next frame is read correctly.       *)
 (*   Allocation: memory allocated before the octets are seen <= PreallocCap.          *)
@@ -107,7 +110,17 @@ RtOther ==
    [Base EXCEPT !.mode = "rt", !.k = "wu", !.aux = "pos", !.sid = "zero"]}
   \cup {[Base EXCEPT !.mode = "rt", !.k = "settings", !.np = n, !.fl = f] : n \in 0..2, f \in {0, 1}}
   \cup {[Base EXCEPT !.mode = "rt", !.k = "data", !.len = l, !.fl = f] : l \in {"exact", "zero", "big"}, f \in {0, 1}}
-RtShapes == RtHdr \cup RtOther
+\* frame structs the WRITER must refuse (frame_write.go: ZeroStreamId, InvalidControlFrame,
+\* InvalidDataFrame): WriteFrame returns an error and leaves NO trace -- nothing on the wire,
+\* nothing in the shared compression context; every later frame still round-trips.
+RtRefused ==
+  {WithBlock([Base EXCEPT !.mode = "rt", !.k = k, !.sid = "zero"], OneLc) : k \in HdrKinds}
+  \cup {[Base EXCEPT !.mode = "rt", !.k = "rst", !.sid = "zero", !.aux = "nz"],
+        [Base EXCEPT !.mode = "rt", !.k = "rst", !.aux = "zero"],          \* status 0
+        [Base EXCEPT !.mode = "rt", !.k = "ping", !.sid = "zero"],
+        [Base EXCEPT !.mode = "rt", !.k = "data", !.sid = "zero"],
+        [Base EXCEPT !.mode = "rt", !.k = "data", !.sid = "hi"]}            \* control bit set
+RtShapes == RtHdr \cup RtOther \cup RtRefused
 
 Shapes == RawShapes \cup RtShapes
 
@@ -144,7 +157,8 @@ PData(s) == IF s.len = "long" THEN "err"             \* fewer octets than declar
             ELSE IF s.sid = "zero" THEN "either" ELSE "ok"
 
 PVerdict(s) ==
-  IF s.mode = "rt" THEN "ok"
+  IF s \in RtRefused THEN "refused"
+  ELSE IF s.mode = "rt" THEN "ok"
   ELSE CASE s.k \in HdrKinds   -> PHdr(s)
          [] s.k \in FixedKinds -> PFixed(s)
          [] s.k = "settings"   -> PSettings(s)
@@ -183,7 +197,8 @@ MFixed(s) ==
     [] s.k = "wu"     -> IF s.fl # 0 \/ s.len # "exact" THEN "err" ELSE "ok"
 
 MOutcome(s) ==
-  IF s.mode = "rt" THEN "ok"
+  IF s \in RtRefused THEN "refused"          \* every check precedes the first octet written / compressed
+  ELSE IF s.mode = "rt" THEN "ok"
   ELSE CASE s.k \in HdrKinds   -> MHdr(s)
          [] s.k \in FixedKinds -> MFixed(s)
          [] s.k = "settings"   -> IF s.len = "exact" /\ s.bm = "none" THEN "ok" ELSE "err"
